@@ -68,4 +68,18 @@ def run(rep):
 
 
 def replay(rep, path):
-    raise tlc.MachineryError("replay: rerun ./check C12 with the same VERIF_SEED; cases are regenerated from the seed")
+    """Rebuild the stored design with the current /repo, drive every input valuation again and judge the cycles."""
+    import json
+    import random
+    d = json.load(open(path))
+    dz = d["design"]
+    try:
+        lines = condgen.run_condition(dz, condgen.all_vals(dz["nin"], random.Random(d["cfg"].get("seed", 0)), 1024))
+    except Exception as ex:  # noqa: BLE001
+        rep.violation({"component": "condition", "cfg": d["cfg"], "clauses": ["ElaborationRaised"], "what": str(ex)[:300], "design": dz})
+        return
+    res, acc, rej, dev = judge.judge("ConditionTrace", [{"design": dz, "cycles": lines}])
+    rep.add("traces_validated_against_impl", 1)
+    for r in rej:
+        rep.violation({"component": "condition", "cfg": d["cfg"], "clauses": sorted(set(r["clauses"]) & set(PROPS)),
+                       "all_failing": r["clauses"], "line": r["line"], "design": dz, "observed": lines[r["line"] - 1]})
